@@ -8,7 +8,7 @@ cd /verif
 WT=/tmp/seedrun-repo
 git -C /repo worktree remove --force $WT >/dev/null 2>&1; rm -rf $WT
 git -C /repo worktree add -q --detach $WT HEAD || exit 2
-export VERIF_EVIDENCE_DIR=/tmp/seedrun-evidence VERIF_NEWREPLAY_DIR=/tmp/seedrun-replays VERIF_REPO=$WT
+export VERIF_SKIP_SEED_REPLAYS=1 VERIF_EVIDENCE_DIR=/tmp/seedrun-evidence VERIF_NEWREPLAY_DIR=/tmp/seedrun-replays VERIF_REPO=$WT
 rm -rf $VERIF_EVIDENCE_DIR $VERIF_NEWREPLAY_DIR
 SEEDS=${@:-$(ls seeded)}
 for spec in $SEEDS; do
